@@ -66,7 +66,7 @@ func subsetAndFilter(c *vlib.Case, api string, in *minfo, out []vlib.Tri, f *ver
 }
 
 func secDecimate(r *vlib.Run) {
-	r.Section("decimate", r.N(780, 10400), vlib.SectionOpts{}, func(c *vlib.Case) {
+	r.Section("decimate", r.N(780, 10400), vlib.SectionOpts{Watchdog: 400 * time.Second}, func(c *vlib.Case) {
 		decimateCase(c, false)
 	})
 }
@@ -211,7 +211,7 @@ func flatCertified(in *minfo, lo, hi float64) (bool, int) {
 }
 
 func secCoplanar(r *vlib.Run) {
-	r.Section("eliminate-coplanar", r.N(780, 10400), vlib.SectionOpts{}, func(c *vlib.Case) {
+	r.Section("eliminate-coplanar", r.N(780, 10400), vlib.SectionOpts{Watchdog: 400 * time.Second}, func(c *vlib.Case) {
 		rng := c.Rng
 		kind := pick(rng, gGridBox, gVoxel, gSubdivided, gGenus, gGridBox, gVoxel, gSubdivided, gMC, gIco, gMulti, gTiny)
 		in := genMesh(c, rng, kind, 2500)
@@ -271,7 +271,7 @@ func secCoplanar(r *vlib.Run) {
 
 func secEliminateEdges(r *vlib.Run) {
 	const api = "model3d.Mesh.EliminateEdges"
-	r.Section("eliminate-edges", r.N(660, 8800), vlib.SectionOpts{}, func(c *vlib.Case) {
+	r.Section("eliminate-edges", r.N(660, 8800), vlib.SectionOpts{Watchdog: 400 * time.Second}, func(c *vlib.Case) {
 		rng := c.Rng
 		kind := -1
 		if rng.Intn(3) == 0 {
